@@ -77,6 +77,17 @@ func init() {
 		}})
 }
 
+func init() {
+	reg(&PropSpec{ID: "C19", Title: "Declared constants and validity checks agree; capability tables match specs", DesignRef: "DESIGN.md §4 C19",
+		Groups: []Group{
+			{Funcs: `^\(primitive\.[A-Za-z]+\)\.[A-Za-z0-9]+$|^primitive\.Check`, OnlyCt: true, Classes: []string{"post", "pre", "cover", "unwind", "inv-init", "inv-step"}},
+		},
+		Assume: []string{
+			"capability truth tables were transcribed by hand from specs/*.spec (sections on query flags, result metadata, error bodies, framing) - the transcription is the oracle",
+			"for version numbers the library does not declare only totality of the predicates is required",
+		}})
+}
+
 // Select returns the functions (keys) of a property with their class filters.
 func (p *PropSpec) Select(w *World) map[string]*Group {
 	out := map[string]*Group{}
